@@ -94,7 +94,12 @@ func (m Modules) Len() int {
 }
 
 func (m Modules) Less(i, j int) bool {
-	return m[i].Name < m[j].Name
+	if m[i].Name != m[j].Name {
+		return m[i].Name < m[j].Name
+	}
+	// Two files of one program may share a base name (in different
+	// directories); without a tie-break their order is that of a map walk.
+	return m[i].File < m[j].File
 }
 
 func (m Modules) Swap(i, j int) {
